@@ -495,7 +495,12 @@ class Ev:
                 m = self.methods.get_after(recv.owner, recv.obj, f.attr) if hasattr(self.methods, "get_after") else None
                 if m is None:
                     if f.attr == "__init__":
-                        return None  # object.__init__
+                        # object.__init__ - or BaseException.__init__, which keeps its arguments in .args
+                        if args and "args" not in recv.obj.__dict__:
+                            recv.obj.__dict__["args"] = tuple(args)
+                        elif "args" not in recv.obj.__dict__:
+                            recv.obj.__dict__["args"] = ()
+                        return None
                     raise self.bad(n, f"super().{f.attr} not found")
                 return m(recv.obj, *args, **kwargs)
             if isinstance(recv, _Bound):
